@@ -151,7 +151,8 @@ def run(pid, tier, seed):
     rng = random.Random(seed * 2039 + 9)
     common.build_s4()
     with Scratch(pid) as sc:
-        keys = ["u22x3", "rhe91"] if tier == "quick" else ["u22x3", "rhe91", "suse15", "u16"]
+        # (u16: the one shipped journal with entries that store the same field name more than once)
+        keys = ["u22x3", "rhe91", "u16"] if tier == "quick" else ["u22x3", "rhe91", "suse15", "u16"]
         prepared = {k: prepare(sc, k) for k in keys}
         d0, plain0, truth0 = prepared["u22x3"]
         jbefore = measure_jbefore(d0, "u22x3.journal", truth0)
